@@ -68,6 +68,12 @@ fn items<I: Item>(mask: u8) -> impl Iterator<Item = I> {
 
 trait Tomb<I: Item>: TombstoneSet<I> + Clone + FromIterator<I> + IntoIterator<Item = I> + 'static {
     const TNAME: &'static str;
+    /// Building an FST costs ~100 µs (the builder zeroes a large registry), so it gets a smaller share
+    /// of the workload (see `Group::fst_every`).
+    const IS_FST: bool = false;
+    fn make(mask: u8) -> Self {
+        items::<I>(mask).collect()
+    }
 }
 impl<I: Item> Tomb<I> for HashSet<I> {
     const TNAME: &'static str = "hashset";
@@ -77,6 +83,15 @@ impl Tomb<u64> for RoaringTombstoneSet {
 }
 impl Tomb<String> for FstTombstoneSet<String> {
     const TNAME: &'static str = "fst";
+    const IS_FST: bool = true;
+    /// Input replicas are cloned from a per-mask cache (each mask still goes through `from_iter`
+    /// once); the merges themselves always run the real rebuild.
+    fn make(mask: u8) -> Self {
+        thread_local! {
+            static CACHE: std::cell::RefCell<HashMap<u8, FstTombstoneSet<String>>> = Default::default();
+        }
+        CACHE.with(|c| c.borrow_mut().entry(mask).or_insert_with(|| items::<String>(mask).collect()).clone())
+    }
 }
 
 /// Read a tombstone set back into index space through *all three* of its read paths (iteration, `len`,
@@ -255,6 +270,7 @@ fn model_le(kind: VKind, a: &St, b: &St) -> bool {
 
 trait Imp: Sized {
     fn name() -> String;
+    fn is_fst() -> bool;
     fn build(st: &St) -> Self;
     fn merge_same(&mut self, other: Self) -> bool;
     /// Merge a freshly built `other` in a different representation (`Merge<Other>` is generic):
@@ -268,8 +284,11 @@ impl<I: Item, T: Tomb<I>> Imp for SetF<I, T> {
     fn name() -> String {
         format!("set/{}-{}", T::TNAME, I::INAME)
     }
+    fn is_fst() -> bool {
+        T::IS_FST
+    }
     fn build(st: &St) -> Self {
-        SetF(SetUnionWithTombstones::new(items::<I>(st.live).collect(), items::<I>(st.tombs).collect()))
+        SetF(SetUnionWithTombstones::new(items::<I>(st.live).collect(), T::make(st.tombs)))
     }
     fn merge_same(&mut self, other: Self) -> bool {
         self.0.merge(other.0)
@@ -305,10 +324,13 @@ impl<I: Item, T: Tomb<I>, V: Val> Imp for MapF<I, T, V> {
     fn name() -> String {
         format!("{}/{}-{}", kind_name(V::KIND), T::TNAME, I::INAME)
     }
+    fn is_fst() -> bool {
+        T::IS_FST
+    }
     fn build(st: &St) -> Self {
         MapF(MapUnionWithTombstones::new(
             bits(st.live).map(|i| (I::of(i), V::of(st.vals[i]))).collect(),
-            items::<I>(st.tombs).collect(),
+            T::make(st.tombs),
         ))
     }
     fn merge_same(&mut self, other: Self) -> bool {
@@ -442,9 +464,9 @@ fn run_plan<F: Imp>(states: &[St], plan: &Plan) -> (Vec<(usize, Result<Obs, Stri
 
 type Runner = fn(&[St], &Plan) -> (Vec<(usize, Result<Obs, String>)>, Vec<StepOut>);
 
-fn impls(kind: VKind) -> Vec<(String, Runner)> {
-    fn e<F: Imp>() -> (String, Runner) {
-        (F::name(), run_plan::<F>)
+fn impls(kind: VKind) -> Vec<(String, Runner, bool)> {
+    fn e<F: Imp>() -> (String, Runner, bool) {
+        (F::name(), run_plan::<F>, F::is_fst())
     }
     match kind {
         VKind::Unit => vec![
@@ -476,6 +498,8 @@ struct Group<'a> {
     fam: &'a str,
     states: &'a [St],
     plans: &'a [Plan],
+    /// The FST backends run plan `i` iff `fst_every > 0 && i % fst_every == 0`.
+    fst_every: usize,
 }
 
 fn case_json(g: &Group, plans: &[&Plan]) -> Value {
@@ -499,13 +523,14 @@ fn check_group(rep: &mut Reporter, g: &Group) {
     let imps = impls(kind);
     // per plan: the reference trace of the first backend, for the cross-backend clause
     let mut reference: Vec<Option<(String, Vec<(bool, BTreeMap<usize, u8>, BTreeSet<usize>)>)>> = vec![None; g.plans.len()];
-    for (iname, runner) in &imps {
+    for (iname, runner, is_fst) in &imps {
         let mut first_final: Option<(usize, BTreeMap<usize, u8>, BTreeSet<usize>)> = None;
         for (pi, plan) in g.plans.iter().enumerate() {
+            if *is_fst && (g.fst_every == 0 || pi % g.fst_every != 0) {
+                continue;
+            }
             let case = || case_json(g, &[plan]);
-            let t0 = std::time::Instant::now();
             let (init, steps) = runner(g.states, plan);
-            rep.count_n(&format!("ns:{iname}"), t0.elapsed().as_nanos() as u64);
             rep.count(&format!("plans:{iname}"));
             // freshly constructed replicas must show exactly what was put in
             let mut ok = true;
@@ -823,7 +848,7 @@ fn distinct_perms(states: &[St], perms: &[Vec<usize>]) -> Vec<Vec<usize>> {
 
 /// All multisets of size `k` over `universe`, each with every distinct ordering (sequential fold) and
 /// the given other-representation choices.
-fn exhaustive(rep: &mut Reporter, kind: VKind, fam: &str, universe: &[St], k: usize, alt_sets: &[&[u8]]) -> u64 {
+fn exhaustive(rep: &mut Reporter, kind: VKind, fam: &str, universe: &[St], k: usize, alt_sets: &[&[u8]], fst_every: usize) -> u64 {
     let perms = permutations(k);
     let mut idx = vec![0usize; k];
     let mut groups = 0u64;
@@ -835,7 +860,7 @@ fn exhaustive(rep: &mut Reporter, kind: VKind, fam: &str, universe: &[St], k: us
                 plans.push(seq_plan(&p, a));
             }
         }
-        check_group(rep, &Group { kind, fam, states: &states, plans: &plans });
+        check_group(rep, &Group { kind, fam, states: &states, plans: &plans, fst_every });
         groups += 1;
         // next non-decreasing index vector
         let mut j = k;
@@ -871,7 +896,7 @@ fn replay(rep: &mut Reporter, case: &Value) {
                         .collect()
                 })
                 .collect();
-            check_group(rep, &Group { kind, fam: case["family"].as_str().unwrap_or("replay"), states: &states, plans: &plans });
+            check_group(rep, &Group { kind, fam: case["family"].as_str().unwrap_or("replay"), states: &states, plans: &plans, fst_every: 1 });
         }
         "cmp" => check_cmp(rep, kind, &St::from_json(&case["a"]), &St::from_json(&case["b"])),
         m => panic!("unknown replay mode {m}"),
@@ -1010,7 +1035,7 @@ fn main() {
     // minimum observation
     let miri = tier == Tier::Miri;
     for kind in kinds {
-        for (iname, _) in impls(kind) {
+        for (iname, _, _) in impls(kind) {
             let c = rep.counter(&format!("plans:{iname}"));
             rep.require(c >= if miri { 1 } else { 1_000 }, &format!("fewer than 1000 merge plans run on {iname}"));
         }
